@@ -51,6 +51,8 @@ def scenario_keys(ctx):
               ("empty", "arg"), ("lstrip_ok", "arg"), ("lstrip_overlap", "arg")]
     for arts, bp in ra_one:
         add("record_artifacts", arts=arts, bp=bp)
+    for arts, bp in (("plain", "none"), ("dir_scheme", "arg"), ("collide", "setting"), ("dot", "none")):
+        add("record_artifacts", arts=arts, bp=bp, excl_setting=True)
     if th:
         for arts in L.RA_ARTIFACTS:
             for bp in forms:
@@ -65,6 +67,7 @@ def scenario_keys(ctx):
     add("record_artifacts", arts="plain", bp="setting", bad_arg="base_type")
 
     # in_toto_run
+    add("run", bp="none", key="none", cmd="write", excl_setting=True)
     add("run", bp="none", key="none", cmd="write")
     add("run", bp="arg", key="signer", cmd="write")
     add("run", bp="setting", key="signer", cmd="write", md="ok")
@@ -130,6 +133,7 @@ def scenario_keys(ctx):
         add("record_stop", bp="arg", key="gpg")
 
     # in_toto_match_products (no base_path argument: setting only)
+    add("match_products", bp="none", excl_setting=True)
     for bp in ("none", "setting"):
         add("match_products", bp=bp)
         add("match_products", bp=bp, arts="collide")
@@ -227,6 +231,10 @@ class Runner:
         res = {"k": k}
         try:
             case = scen.fresh(wd)
+            if scen.params.get("excl_setting"):
+                # exclude patterns that come from the SETTING (no argument given), in spellings a resolver might want to
+                # normalise: the list in in_toto.settings must read the same after the call
+                case.settings["ARTIFACT_EXCLUDE_PATTERNS"] = ["./build", "*.link*", "./x/f", "sub/", "!keep", "\\#lit", "  spaced "]
             os.chdir(case.cwd)
             import in_toto.settings as S
             for nme, val in case.settings.items():
